@@ -26,12 +26,13 @@ META = {
     "assumptions": ["floats as exact reals", "point_in_polygon: test points anywhere in [-1, 5]^2 (polygons in [0, 4]^2); points "
                     "on the boundary must give the `default` value", "is_ccw_polyline: coordinates in [-4, 4], tol in {0, 1/8}",
                     "is_ccw_polygon: convex quadrilaterals / pentagons with symbolic vertices (all fan triangles of one orientation, "
-                    "area >= 1/16 each)", "sort_point_pairs: closed chains of 3-6 segments, arbitrary order and flips "
+                    "area >= 1/16 each)", "points_are_collinear: 3 symbolic points, or 4 points of which the first two are fixed, in the plane z = 0, either all on the line through the first two or one "
+                    "point at least 1/2 (twice the triangle area) off it", "sort_point_pairs: closed chains of 3-6 segments, arbitrary order and flips "
                     "(sampled), distinct symbolic labels"],
     "stubs": [],
     "outside": ["point_in_polyhedron / PointInPolyhedron (solid angles through arctan2: transcendental, no decision procedure)",
                 "half_space_interior_point / vertexes_of_convex_domain (scipy linprog / Qhull)",
-                "points_are_planar / points_are_collinear / sort_points_on_line / sort_point_plane (normalisation by square "
+                "points_are_planar / sort_points_on_line / sort_point_plane (normalisation by square "
                 "roots and arccos-based rotations: see C32 in DESIGN.md)", "point_in_cell"],
 }
 
@@ -64,6 +65,11 @@ def shards(tier, seed):
             out.append({"kind": "ccw-polygon", "n": n, "orient": orient})
     for body in ("cube", "tetra"):
         out.append({"kind": "halfspace", "body": body})
+    for npts in (3, 4):
+        for truth in ("collinear", "off-last", "off-middle"):
+            if npts == 3 and truth == "off-middle":
+                continue
+            out.append({"kind": "collinear", "npts": npts, "truth": truth})
     rnd = random.Random(31 + seed)
     for n in (3, 4, 5) + ((6,) if tier != "quick" else ()):
         for k in range(6 if tier == "quick" else 30):
@@ -293,11 +299,59 @@ def h_chain(ctx, c):
         ctx.sample({"case": c})
 
 
-_H = {"pip": h_pip, "ccw-polyline": h_ccw_polyline, "ccw-polygon": h_ccw_polygon, "halfspace": h_halfspace, "chain": h_chain}
+def h_collinear(ctx, c):
+    """points_are_collinear on points of the plane z = 0: either all on the line through the first two
+    points, or one point (the last / a middle one) at least 1/4 off it (far outside the tolerance)."""
+    import porepy as pp
+
+    n = c["npts"]
+    P = [[ctx.real(f"x{i}", -2, 2), ctx.real(f"y{i}", -2, 2)] for i in range(n)]
+    if n > 3:
+        # four points: the first two are fixed (keeps the number of symbolic pairwise distances down)
+        P[0] = [SReal(rv(F(-1, 2))), SReal(rv(F(1, 4)))]
+        P[1] = [SReal(rv(F(3, 2))), SReal(rv(F(5, 4)))]
+    d01 = [lift(P[1][0]) - lift(P[0][0]), lift(P[1][1]) - lift(P[0][1])]
+    ctx.assume(d01[0] * d01[0] + d01[1] * d01[1] >= rv(F(1, 4)))
+
+    def off(i):      # twice the signed area of (p0, p1, pi)
+        return d01[0] * (lift(P[i][1]) - lift(P[0][1])) - d01[1] * (lift(P[i][0]) - lift(P[0][0]))
+
+    bad = {"collinear": None, "off-last": n - 1, "off-middle": 2}[c["truth"]]
+    for i in range(2, n):
+        if i == bad:
+            ctx.assume(z3.Or(off(i) >= rv(F(1, 2)), off(i) <= -rv(F(1, 2))))
+        else:
+            ctx.assume(off(i) == 0)
+    inputs = {"case": c, "P": P}
+
+    def case(conc):
+        cc = conc(inputs)
+        return {"case": c, "P": [[float(v) for v in p] for p in cc["P"]]}
+
+    pts = np.empty((3, n), dtype=object)
+    for i in range(n):
+        pts[0, i], pts[1, i], pts[2, i] = P[i][0], P[i][1], SReal(rv(0))
+    res = pp.geometry_property_checks.points_are_collinear(pts.view(SymArr))
+    rb = res.e if hasattr(res, "e") else z3.BoolVal(bool(res))
+    ctx.check("collinear-iff-all-points-on-the-line", rb == z3.BoolVal(bad is None), case)
+    m = ctx.reach("end")
+    if m is not None:
+        ctx.validate_replay("float-run", case, model=m)
+    if ctx.idx == 0:
+        ctx.sample({"case": c})
+
+
+_H = {"collinear": h_collinear, "pip": h_pip, "ccw-polyline": h_ccw_polyline, "ccw-polygon": h_ccw_polygon, "halfspace": h_halfspace, "chain": h_chain}
 
 
 def run_shard(ex, shard):
     for c in shard["cases"]:
+        nonlinear = c["kind"] == "collinear"       # square roots / quotients: fresh solvers and interval pruning
+        ex.cfg.fresh_branches = nonlinear
+        ex.cfg.interval_first = nonlinear
+        ex.cfg.simplify_div = nonlinear
+        ex.cfg.slice_first = nonlinear
+        ex.cfg.incremental_first = not nonlinear
         ex.run(_H[c["kind"]], label=str(c), args=(c,))
 
 
@@ -379,6 +433,18 @@ def replay_case(case):
                 bad.append(f"point {case['pts'][j]}: code {bool(res[j])}, exact {want}")
         if bad:
             return True, f"half spaces {c['body']} offsets {case['off']}: {bad}"
+        return False, "agrees"
+    if kind == "collinear":
+        P = np.array(case["P"], dtype=float).T
+        pts = np.vstack([P, np.zeros(P.shape[1])])
+        res = bool(pp.geometry_property_checks.points_are_collinear(pts))
+        d = P[:, 1] - P[:, 0]
+        offs = [abs(d[0] * (P[1, i] - P[1, 0]) - d[1] * (P[0, i] - P[0, 0])) for i in range(2, P.shape[1])]
+        want = max(offs) < 1e-9
+        if max(offs) > 1e-9 and max(offs) < 0.25:
+            return False, "inside the separation band"
+        if res != want:
+            return True, f"points_are_collinear({P.T.tolist()}) = {res}, but the largest offset (twice the area with p0, p1) is {max(offs)}"
         return False, "agrees"
     if kind == "chain":
         n = c["n"]
